@@ -21,6 +21,24 @@ func buildIntrinsics() map[string]Intrinsic {
 	// ---- harness primitives
 	m[hp+"nondetString"] = inNondetString
 	m[hp+"nondetBool"] = inNondetBool
+	m[hp+"nondetFixed"] = func(e *Exec, st *State, ci *CallInfo) Outcome {
+		name := mustConc(ci.Args[0], "nondet name")
+		n := constInt(ci.Args[1], "length")
+		if fv, ok := e.Fixed[name]; ok {
+			str, _ := fv.(string)
+			cs := e.ConcStr(str)
+			e.addInput(st, name, "string", cs)
+			return val(cs)
+		}
+		cells := make([]*sym.Term, n)
+		for i := range cells {
+			cells[i] = e.C.Var(fmt.Sprintf("%s!%d", name, i), 8)
+			e.assumeTrusted(st, e.C.Ule(cells[i], e.C.BV(0x7f, 8)))
+		}
+		s := &Str{Base: &StrBase{Cells: cells, Name: name}, Off: e.i64(0), Len: e.i64(n), Max: n}
+		e.addInput(st, name, "string", s)
+		return val(s)
+	}
 	m[hp+"nondetInt"] = inNondetInt
 	m[hp+"nondetChoice"] = inNondetChoice
 	m[hp+"verifAssume"] = inAssume
